@@ -12,7 +12,7 @@ with an `order` option changed how every later Caddyfile of the same process was
 A file is reduced to what matters here: its `order` options and the route values of one
 sorted block.  Core Lean only, structural recursion.
 -/
-import CaddyModel.C16.Keyed
+import CaddyModel.C16.Stable
 
 namespace CaddyModel.C16
 
@@ -73,7 +73,7 @@ inductive Adapted where
 
 /-- `buildSubroute` under the order in effect when the options have been read -/
 def adaptedUnder (order : List String) (accepted : Bool) (f : CFile) : Adapted :=
-  if accepted && allOrdered order f.routes then .ok (sortRoutesKeyed order f.routes) else .rejected
+  if accepted && allOrdered order f.routes then .ok (sortRoutes (less order) f.routes) else .rejected
 
 /-- `Setup` as it is: `directiveOrder = slices.Clone(directiveOrder)`, the options act on the
 clone, `defer` puts the original back.  Returns the result and the package-level order afterwards. -/
